@@ -183,7 +183,8 @@ def inv_st(draw):
 
 
 def coord_filter(values):
-    return st.one_of(st.none(), st.just("*"), values, values.map(lambda v: v[:1] + "*"),
+    # (the empty pattern is a pattern, not an omitted one: it matches only an empty name)
+    return st.one_of(st.none(), st.just("*"), st.just(""), values, values.map(lambda v: v[:1] + "*"),
                      values.map(lambda v: "*" + v[-1:]), values.map(lambda v: v.replace("*", "\\*")), pat_st,
                      # each coordinate is matched on its own: a pattern that is only one side of a ':' inside a type
                      # ('b' for the type 'a:b'), or that reaches across the domain / type boundary ('py:a'), matches nothing
